@@ -268,6 +268,30 @@ class ConstEval:
         return UNKNOWN
 
     def _call(self, node, rel, env, depth):
+        # regular expressions with a constant pattern (the pattern is data of
+        # the program; applying it is evaluation, not execution of the repo)
+        if isinstance(node.func, ast.Attribute) and node.func.attr in (
+                'split', 'sub', 'findall') and not node.keywords:
+            import re as _re
+            pat = None
+            args = list(node.args)
+            if dotted(node.func.value) == 're' and args:
+                pat = self.ev(args[0], rel, env, depth + 1)
+                args = args[1:]
+            elif isinstance(node.func.value, ast.Name) and \
+                    node.func.value.id not in env:
+                r = self.resolve_name(rel, node.func.value.id)
+                if r and r[1] == 'const' and isinstance(
+                        r[2], ast.Call) and dotted(r[2].func) == \
+                        're.compile' and r[2].args:
+                    pat = self.ev(r[2].args[0], r[0], {}, depth + 1)
+            if isinstance(pat, str):
+                vals = [self.ev(a, rel, env, depth + 1) for a in args]
+                if all(isinstance(v, str) for v in vals) and vals:
+                    try:
+                        return getattr(_re, node.func.attr)(pat, *vals)
+                    except Exception:
+                        return UNKNOWN
         # str methods on constants
         if isinstance(node.func, ast.Attribute):
             base = self.ev(node.func.value, rel, env, depth + 1)
